@@ -7,6 +7,7 @@ package main
 
 import (
 	"fmt"
+	"os"
 	"go/constant"
 	"go/types"
 	"math/big"
@@ -417,6 +418,9 @@ func freshVal(prefix string, t types.Type) (Val, []*Term) {
 // values are equal leaf by leaf (uninterpreted functions over interface arguments depend on it).
 func nilIfaceCanon(v Val, ls []Leaf) []*Term {
 	var out []*Term
+	if os.Getenv("GOVC_NONILCANON") != "" {
+		return nil
+	}
 	for i := 0; i+1 < len(ls); i++ {
 		if ls[i].Kind == LTag && ls[i+1].Kind == LData && !v[i].IsConst() && !v[i].hasBV {
 			out = append(out, Implies(Eq(v[i], IntC(0)), Eq(v[i+1], IntC(0))))
